@@ -6,7 +6,7 @@ patch=$(realpath "$1"); id=$2; shift 2
 wt=$(mktemp -d /tmp/mut-XXXXXX)
 git -C /repo worktree add --detach -f "$wt" HEAD >/dev/null 2>&1 || { echo "worktree failed"; exit 2; }
 ( cd "$wt" && patch -p1 --no-backup-if-mismatch < "$patch" >/dev/null ) || { echo "patch failed"; git -C /repo worktree remove --force "$wt"; exit 2; }
-VERIF_REPO="$wt" VERIF_FIRSTHIT=${VERIF_FIRSTHIT:-} VERIF_NOEVIDENCE=1 VERIF_MAXREPLAY=${VERIF_MAXREPLAY:-4} HYSIM_MAXVIOL_DEFAULT=1 /verif/check "$id" "$@"
+VERIF_REPO="$wt" VERIF_FIRSTHIT=${VERIF_FIRSTHIT:-} VERIF_BUDGET_SCALE=${VERIF_BUDGET_SCALE:-1} VERIF_NOEVIDENCE=1 VERIF_MAXREPLAY=${VERIF_MAXREPLAY:-4} HYSIM_MAXVIOL_DEFAULT=1 /verif/check "$id" "$@"
 rc=$?
 git -C /repo worktree remove --force "$wt"
 rm -rf "$wt"
